@@ -549,6 +549,7 @@ def run(chk, repo, tier):
         else:
             continue
         break
+    run_k9(chk, repo)
 
 
 def _record_tests(fn):
@@ -582,3 +583,29 @@ def _def_of(fn, name):
         if isinstance(n, ast.Assign) and isinstance(n.targets[0], ast.Name) and n.targets[0].id == name:
             return n.value
     return None
+
+
+def run_k9(chk, repo):
+    K9 = chk.rule('K9', 'files keyed by model name live where the name -> key links live (per context): annotations next to '
+                        'the models directory', floor=1)
+    m = repo.module('pharmpy.workflows.contexts.local_directory')
+    c = m.classes.get('LocalDirectoryContext')
+    if c is None:
+        raise AnalysisError('LocalDirectoryContext not found')
+
+    def base(prop):
+        f = c.methods.get(prop)
+        if f is None:
+            raise AnalysisError(f'LocalDirectoryContext.{prop} not found')
+        r = next((n.value for n in walk_no_nested(f.node) if isinstance(n, ast.Return)), None)
+        if isinstance(r, ast.BinOp) and isinstance(r.op, ast.Div):
+            return unparse(r.left)
+        raise AnalysisError(f'K9: {prop} is not <base> / <name>')
+    bm, ba = base('_models_path'), base('_annotations_path')
+    chk.instance(K9, f'_models_path under {bm}; _annotations_path under {ba}')
+    if bm != ba:
+        chk.violation(K9, m.rel, 'LocalDirectoryContext._annotations_path', f'{ba} / annotations (names under {bm})',
+                      'model names are per context, the annotations file is not: two contexts of one run that both store `input` '
+                      'or `final` overwrite each other\'s description', line=c.methods['_annotations_path'].node.lineno,
+                      witness='a top context and two subcontexts each storing input/final: retrieve_model_entry returns another '
+                              'model\'s description')
